@@ -4,7 +4,7 @@
 From Coq Require Import List NArith Bool Lia.
 From Coq.Strings Require Import Byte.
 From EV Require Import Base.Bytes Base.SecpField Base.Sha256 Gen.Tables Model.Bech32 Model.Base58 Model.Address Proofs.Bech32 Proofs.Bech32Codes Proofs.Address Proofs.AddressRT
-  Proofs.Numeral Proofs.AddressB58 Proofs.AddressCanon.
+  Proofs.Numeral Proofs.AddressB58 Proofs.AddressCanon Proofs.AddressCase.
 Import ListNotations.
 Open Scope N_scope.
 Set Default Timeout 120.
@@ -72,6 +72,15 @@ Proof. exact canonical. Qed.
 Theorem C06_canonical_from_str : forall (H : bytes -> bytes) (pk_valid : bytes -> bool) s a, from_str H pk_valid s = AOk a ->
   (is_segwit a /\ display H a = lower s) \/ (~ is_segwit a /\ display H a = s).
 Proof. exact canonical_from_str. Qed.
+
+(* Case: only the two single-case forms of a segwit address parse (C06_roundtrip for both, C06_canonical: they display as the lower-case
+   one); a string with an upper-case and a lower-case letter anywhere, human-readable part included, never parses as a segwit address —
+   any parameters, FromStr included — and is an error outright where its prefix matches an HRP of the network. *)
+Theorem C06_mixed_case_rejected : forall (H : bytes -> bytes) (pk_valid : bytes -> bool) s p, mixed_case s = true ->
+  (forall a, parse_with_params H pk_valid s p = AOk a -> ~ is_segwit a) /\
+  (segwit_path s p = true -> exists e, parse_with_params H pk_valid s p = AErr e) /\
+  (forall a, from_str H pk_valid s = AOk a -> ~ is_segwit a).
+Proof. intros H pkv s p M. destruct (mixed_case_rejected H pkv s p M) as [A B]. split; [exact A|split; [exact B|intros a; exact (mixed_case_rejected_from_str H pkv s a M)]]. Qed.
 
 (* ---- the lemmas the clauses above rest on, at full strength ---- *)
 (* positional numerals, any base >= 2: minimal digits of the value of a canonical digit list (all digits < b, no leading zero), and back *)
@@ -169,6 +178,7 @@ Print Assumptions C06_roundtrip_segwit_upper.
 Print Assumptions C06_roundtrip_base58.
 Print Assumptions C06_canonical.
 Print Assumptions C06_canonical_from_str.
+Print Assumptions C06_mixed_case_rejected.
 Print Assumptions C06_numeral.
 Print Assumptions C06_base58_codec.
 Print Assumptions C06_base58check.
